@@ -177,6 +177,12 @@ def run_case(case):
             v.close("binding the original grid again reproduces the original values", float(np.max(np.abs(back - vals))) / scale if back.shape == vals.shape else float("inf"), 1e-12)
         else:
             got = vals if name == "own grid" else np.array(n.with_times(tq).values)
+        cond = 2 * np.pi * float(np.max(n.freqs)) * float(np.max(np.abs(tq))) * 4e-16     # phase conditioning at large |t|
+        if impl == "fft":
+            # the stored step times[1]-times[0] carries a relative error eps*|t|/dt; after K samples the interpolation
+            # position is off by K times that (in samples), and neighbouring samples differ by up to 2*scale
+            K = float(np.max(np.abs((tq - t[0]) / dts))) + n_all
+            cond += 4e-16 * float(np.max(np.abs(t))) / dts * K
         if impl == "fft":
             model = fft_model(n, tq, t[0], dts, n_all)
             if nyq_in:
@@ -188,15 +194,9 @@ def run_case(case):
                 half.amps[-1] *= 0.5
                 m2 = fft_model(half, tq, t[0], dts, n_all)
                 v.close("waveform == cosine sum with the Nyquist component at half weight (%s)" % name, float(np.max(np.abs(got - m2))) / scale,
-                        1e-9 + 2 * np.pi * float(np.max(n.freqs)) * float(np.max(np.abs(tq))) * 4e-15, impl=impl, N=N, uniqueness=case["uq"])
+                        1e-9 + cond * 10, impl=impl, N=N, uniqueness=case["uq"])          # same conditioning as the clause below
         else:
             model = full_model(n, tq)
-        cond = 2 * np.pi * float(np.max(n.freqs)) * float(np.max(np.abs(tq))) * 4e-16     # phase conditioning at large |t|
-        if impl == "fft":
-            # the stored step times[1]-times[0] carries a relative error eps*|t|/dt; after K samples the interpolation
-            # position is off by K times that (in samples), and neighbouring samples differ by up to 2*scale
-            K = float(np.max(np.abs((tq - t[0]) / dts))) + n_all
-            cond += 4e-16 * float(np.max(np.abs(t))) / dts * K
         v.close("waveform == published cosine sum (%s)" % name, float(np.max(np.abs(got - model))) / scale, 1e-9 + cond * 10,
                 impl=impl, nyquist_in_band=bool(nyq_in), N=N, uniqueness=case["uq"], window=name)
     # ---- re-gridding reproduces the values at shared sample times
